@@ -37,6 +37,8 @@ impl NodeRow {
 
 #[derive(Debug, Clone, PartialEq)]
 pub struct EdgeRow {
+    /// the target row is not stored on this node: the reference is invisible to every query
+    pub dangling: bool,
     pub src: Vec<u8>,
     pub src_entity: String,
     pub label: String,
@@ -181,10 +183,11 @@ pub fn dump_room(conn: &Connection, room: &Uid) -> R<RoomDump> {
     }
     {
         let mut st = e2s(conn.prepare(
-            "SELECT e.src, e.src_entity, e.label, e.dest, e.cdate, e.verifying_key, e.signature FROM _edge e JOIN _node n ON n.id = e.src AND n._entity = e.src_entity WHERE n.room_id = ? ORDER BY e.src, e.label, e.dest",
+            "SELECT e.src, e.src_entity, e.label, e.dest, e.cdate, e.verifying_key, e.signature, NOT EXISTS (SELECT 1 FROM _node t WHERE t.id = e.dest) FROM _edge e JOIN _node n ON n.id = e.src AND n._entity = e.src_entity WHERE n.room_id = ? ORDER BY e.src, e.label, e.dest",
         ))?;
         let rows = e2s(st.query_map([room.as_slice()], |r| {
             Ok(EdgeRow {
+                dangling: r.get(7)?,
                 src: r.get(0)?,
                 src_entity: r.get(1)?,
                 label: r.get(2)?,
@@ -270,7 +273,9 @@ impl RoomDump {
         for n in &self.nodes {
             v.push(n.line());
         }
-        for e in &self.edges {
+        // a reference whose target row is not stored is invisible to every query (a deleted target leaves such references
+        // on the peers that learn the deletion by synchronisation): it is not part of what peers must agree on
+        for e in self.edges.iter().filter(|e| !e.dangling) {
             v.push(e.line());
         }
         for n in &self.node_del {
